@@ -42,6 +42,10 @@ struct NodeSpec {
     /// start (so the local node is connected to it by an inbound connection)
     #[serde(default)]
     dials_local: bool,
+    /// a live node whose routing entries also carry dead addresses: in a `mix` network one live address plus a
+    /// refused tcp / ws and an unanswered quic address of the other transports, otherwise one more dead address
+    #[serde(default)]
+    decoy: bool,
 }
 fn never() -> String {
     "never".into()
@@ -81,13 +85,23 @@ struct Scenario {
     settle_ms: u64,
     #[serde(default)]
     after_drop_ms: u64,
+    /// "tcp" | "ws" | "quic" | "mix" (every node listens on all three; routing entries carry different subsets)
+    #[serde(default = "tcp")]
+    transport: String,
+}
+fn tcp() -> String {
+    "tcp".into()
 }
 
 enum Fake {
     /// bound, never listening: connect() is refused by the kernel
     Bound(#[allow(dead_code)] tokio::net::TcpSocket),
+    /// bound UDP socket nobody reads: a QUIC handshake towards it times out
+    BoundUdp(#[allow(dead_code)] tokio::net::UdpSocket),
     /// accepts TCP connections and drops them at once
     Refusing(tokio::task::JoinHandle<()>),
+    /// a real node that answers under another identity than the dialed one (the handshake is refused)
+    WrongId(NodeHandle),
     NoAddr,
 }
 
@@ -95,8 +109,7 @@ struct Slot {
     peer: PeerId,
     addrs: Vec<Multiaddr>,
     real: Option<NodeHandle>,
-    #[allow(dead_code)]
-    fake: Option<Fake>,
+    fakes: Vec<Fake>,
 }
 
 fn role_of(s: &str) -> Option<Role> {
@@ -117,37 +130,98 @@ fn key_for(sc: u64, op: usize) -> Vec<u8> {
     k
 }
 
-async fn make_fake(role: &str) -> Result<(PeerId, Vec<Multiaddr>, Fake), String> {
-    let peer = PeerId::random();
-    match role {
-        "undialable" => {
-            let s = tokio::net::TcpSocket::new_v4().map_err(|e| e.to_string())?;
-            s.bind("127.0.0.1:0".parse().unwrap()).map_err(|e| e.to_string())?;
-            let port = s.local_addr().map_err(|e| e.to_string())?.port();
-            let a: Multiaddr = format!("/ip4/127.0.0.1/tcp/{port}").parse().unwrap();
-            Ok((peer, vec![a.with(Protocol::P2p(peer.into()))], Fake::Bound(s)))
-        }
-        "refusing" => {
-            let l = tokio::net::TcpListener::bind("127.0.0.1:0").await.map_err(|e| e.to_string())?;
-            let port = l.local_addr().map_err(|e| e.to_string())?.port();
-            let h = tokio::spawn(async move {
-                loop {
-                    if let Ok((s, _)) = l.accept().await {
-                        drop(s);
-                    }
-                }
-            });
-            let a: Multiaddr = format!("/ip4/127.0.0.1/tcp/{port}").parse().unwrap();
-            Ok((peer, vec![a.with(Protocol::P2p(peer.into()))], Fake::Refusing(h)))
-        }
-        "noaddr" => {
-            // an address no enabled transport can dial: it stays in the Kademlia routing table
-            // but the transport manager knows no address for the peer
-            let a: Multiaddr = "/ip4/127.0.0.1/udp/4001/quic-v1".parse().unwrap();
-            Ok((peer, vec![a.with(Protocol::P2p(peer.into()))], Fake::NoAddr))
-        }
-        other => Err(format!("unknown role {other}")),
+fn with_peer(a: &str, peer: PeerId) -> Multiaddr {
+    let a: Multiaddr = a.parse().unwrap();
+    a.with(Protocol::P2p(peer.into()))
+}
+
+/// An address that is well-formed but that no transport enabled in a network of kind `tr` can dial: it stays in
+/// the Kademlia routing table while the transport manager knows no address for the peer.
+fn undialable_form(tr: &str, peer: PeerId) -> Multiaddr {
+    match tr {
+        "quic" => with_peer("/ip4/127.0.0.1/tcp/4001", peer),
+        "mix" => with_peer("/ip4/127.0.0.1/udp/4001", peer),
+        _ => with_peer("/ip4/127.0.0.1/udp/4001/quic-v1", peer),
     }
+}
+
+/// the single transports a network of kind `tr` uses
+fn transports(tr: &str) -> Vec<&'static str> {
+    match tr {
+        "ws" => vec!["ws"],
+        "quic" => vec!["quic"],
+        "mix" => vec!["tcp", "ws", "quic"],
+        _ => vec!["tcp"],
+    }
+}
+
+async fn make_fake(role: &str, tr: &str, net: u64, idx: u32, log: &Log) -> Result<(PeerId, Vec<Multiaddr>, Vec<Fake>), String> {
+    let peer = PeerId::random();
+    let mut addrs = Vec::new();
+    let mut fakes = Vec::new();
+    if role == "noaddr" {
+        return Ok((peer, vec![undialable_form(tr, peer)], vec![Fake::NoAddr]));
+    }
+    for t in transports(tr) {
+        let sfx = if t == "ws" { "/ws" } else { "" };
+        match (role, t) {
+            ("undialable", "quic") => {
+                let s = tokio::net::UdpSocket::bind("127.0.0.1:0").await.map_err(|e| e.to_string())?;
+                let port = s.local_addr().map_err(|e| e.to_string())?.port();
+                addrs.push(with_peer(&format!("/ip4/127.0.0.1/udp/{port}/quic-v1"), peer));
+                fakes.push(Fake::BoundUdp(s));
+            }
+            ("undialable", _) => {
+                let s = tokio::net::TcpSocket::new_v4().map_err(|e| e.to_string())?;
+                s.bind("127.0.0.1:0".parse().unwrap()).map_err(|e| e.to_string())?;
+                let port = s.local_addr().map_err(|e| e.to_string())?.port();
+                addrs.push(with_peer(&format!("/ip4/127.0.0.1/tcp/{port}{sfx}"), peer));
+                fakes.push(Fake::Bound(s));
+            }
+            ("refusing", "quic") => {
+                // a QUIC endpoint cannot "accept and drop" below the handshake: a real node with another identity
+                // refuses the dialed peer id during the handshake instead
+                let h = node::spawn(NodeCfg { net, idx: 1000 + idx, role: Role::NoKad, max_outgoing: None, transport: "quic".into() }, log.clone()).await?;
+                for a in &h.addrs {
+                    let bare: Multiaddr = a.iter().filter(|p| !matches!(p, Protocol::P2p(_))).collect();
+                    addrs.push(bare.with(Protocol::P2p(peer.into())));
+                }
+                fakes.push(Fake::WrongId(h));
+            }
+            ("refusing", _) => {
+                let l = tokio::net::TcpListener::bind("127.0.0.1:0").await.map_err(|e| e.to_string())?;
+                let port = l.local_addr().map_err(|e| e.to_string())?.port();
+                let h = tokio::spawn(async move {
+                    loop {
+                        if let Ok((s, _)) = l.accept().await {
+                            drop(s);
+                        }
+                    }
+                });
+                addrs.push(with_peer(&format!("/ip4/127.0.0.1/tcp/{port}{sfx}"), peer));
+                fakes.push(Fake::Refusing(h));
+            }
+            (other, _) => return Err(format!("unknown role {other}")),
+        }
+    }
+    Ok((peer, addrs, fakes))
+}
+
+/// In a `mix` network every node listens on tcp, ws and quic; the addresses the others are told differ per node,
+/// so routing entries carry addresses of one, two or all three transports.
+fn advertised(tr: &str, sc: u64, idx: u32, all: &[Multiaddr]) -> Vec<Multiaddr> {
+    if tr != "mix" {
+        return all.to_vec();
+    }
+    let is = |a: &Multiaddr, t: &str| match t {
+        "ws" => a.iter().any(|p| matches!(p, Protocol::Ws(_))),
+        "quic" => a.iter().any(|p| matches!(p, Protocol::QuicV1)),
+        _ => !a.iter().any(|p| matches!(p, Protocol::Ws(_) | Protocol::QuicV1)),
+    };
+    let sets: [&[&str]; 6] = [&["tcp", "ws", "quic"], &["ws"], &["quic"], &["tcp"], &["ws", "quic"], &["quic", "tcp"]];
+    let pick = sets[((sc + idx as u64) % 6) as usize];
+    let v: Vec<Multiaddr> = all.iter().filter(|a| pick.iter().any(|t| is(a, t))).cloned().collect();
+    if v.is_empty() { all.to_vec() } else { v }
 }
 
 struct Outcome {
@@ -164,22 +238,46 @@ async fn run_scenario(sc: Scenario, fault: String) -> Result<Outcome, String> {
     let t_start = Instant::now();
     let mut slots: Vec<Slot> = Vec::new();
     // node 0: the local node
-    let local = node::spawn(NodeCfg { net: sc.id, idx: 0, role: Role::Kad, max_outgoing: sc.limit }, log.clone()).await?;
-    slots.push(Slot { peer: local.peer, addrs: vec![local.addr.clone()], real: Some(local), fake: None });
+    let tr = sc.transport.clone();
+    let local = node::spawn(NodeCfg { net: sc.id, idx: 0, role: Role::Kad, max_outgoing: sc.limit, transport: tr.clone() }, log.clone()).await?;
+    slots.push(Slot { peer: local.peer, addrs: local.addrs.clone(), real: Some(local), fakes: vec![] });
     for (i, ns) in sc.nodes.iter().enumerate() {
         let idx = (i + 1) as u32;
         if let Some(role) = role_of(&ns.role) {
-            let h = node::spawn(NodeCfg { net: sc.id, idx, role, max_outgoing: None }, log.clone()).await?;
-            let addrs = if ns.hidden {
-                let a: Multiaddr = "/ip4/127.0.0.1/udp/4001/quic-v1".parse().unwrap();
-                vec![a.with(Protocol::P2p(h.peer.into()))]
-            } else {
-                vec![h.addr.clone()]
-            };
-            slots.push(Slot { peer: h.peer, addrs, real: Some(h), fake: None });
+            let h = node::spawn(NodeCfg { net: sc.id, idx, role, max_outgoing: None, transport: tr.clone() }, log.clone()).await?;
+            let mut addrs = if ns.hidden { vec![undialable_form(&tr, h.peer)] } else { advertised(&tr, sc.id, idx, &h.addrs) };
+            let mut fakes = Vec::new();
+            if ns.decoy {
+                let kind = |a: &Multiaddr| {
+                    if a.iter().any(|p| matches!(p, Protocol::Ws(_))) { "ws" } else if a.iter().any(|p| matches!(p, Protocol::QuicV1)) { "quic" } else { "tcp" }
+                };
+                if tr == "mix" {
+                    // keep one live address, the other transports get dead ones
+                    let live = h.addrs[((sc.id + idx as u64) % h.addrs.len() as u64) as usize].clone();
+                    addrs = vec![];
+                    let (_, dead, f) = make_fake("undialable", "mix", sc.id, idx, &log).await?;
+                    for d in dead {
+                        if kind(&d) != kind(&live) {
+                            let bare: Multiaddr = d.iter().filter(|p| !matches!(p, Protocol::P2p(_))).collect();
+                            addrs.push(bare.with(Protocol::P2p(h.peer.into())));
+                        }
+                    }
+                    // the live address goes last / first alternately
+                    if (sc.id + idx as u64) % 2 == 0 { addrs.push(live) } else { addrs.insert(0, live) }
+                    fakes = f;
+                } else {
+                    let (_, dead, f) = make_fake("undialable", &tr, sc.id, idx, &log).await?;
+                    for d in dead {
+                        let bare: Multiaddr = d.iter().filter(|p| !matches!(p, Protocol::P2p(_))).collect();
+                        addrs.insert(0, bare.with(Protocol::P2p(h.peer.into())));
+                    }
+                    fakes = f;
+                }
+            }
+            slots.push(Slot { peer: h.peer, addrs, real: Some(h), fakes });
         } else {
-            let (peer, addrs, f) = make_fake(&ns.role).await?;
-            slots.push(Slot { peer, addrs, real: None, fake: Some(f) });
+            let (peer, addrs, fakes) = make_fake(&ns.role, &tr, sc.id, idx, &log).await?;
+            slots.push(Slot { peer, addrs, real: None, fakes });
         }
     }
     let spec = |i: usize| -> &NodeSpec { &sc.nodes[i - 1] };
@@ -377,8 +475,12 @@ async fn run_scenario(sc: Scenario, fault: String) -> Result<Outcome, String> {
             late = late.max(*r.late.lock().unwrap());
             r.kill().await;
         }
-        if let Some(Fake::Refusing(h)) = s.fake.as_ref() {
-            h.abort();
+        for f in s.fakes.iter_mut() {
+            match f {
+                Fake::Refusing(h) => h.abort(),
+                Fake::WrongId(h) => h.kill().await,
+                _ => {}
+            }
         }
     }
     let markers = logcap::take(sc.id);
@@ -391,7 +493,7 @@ async fn run_scenario(sc: Scenario, fault: String) -> Result<Outcome, String> {
         meta.insert(qid(*n, *q), op);
     }
     let mut trace: Vec<String> = Vec::new();
-    trace.push(json!({"e": "reset", "id": sc.id, "name": sc.name}).to_string());
+    trace.push(json!({"e": "reset", "id": sc.id, "name": sc.name, "tr": sc.transport}).to_string());
     let mut seen_cmd: HashSet<u64> = HashSet::new();
     let mut early: Vec<Value> = Vec::new();
     let mut recvd: HashMap<u64, HashSet<u64>> = HashMap::new();
@@ -475,7 +577,7 @@ async fn run_scenario(sc: Scenario, fault: String) -> Result<Outcome, String> {
         .collect();
     let mk: HashMap<String, Value> = markers.into_iter().map(|(n, m)| (n.to_string(), json!(m))).collect();
     let diag = json!({
-        "id": sc.id, "name": sc.name, "wall_ms": t_start.elapsed().as_millis() as u64, "ops_window_ms": t_end_ms,
+        "id": sc.id, "name": sc.name, "transport": sc.transport, "wall_ms": t_start.elapsed().as_millis() as u64, "ops_window_ms": t_end_ms,
         "late_ms": late, "discarded": late > 2000, "ops": ops_diag, "markers": mk,
         "dead": snap.iter().filter(|e| e["k"] == "dead" && e["why"] != "kill").map(|e| json!({"node": e["node"], "why": e["why"], "t": e["t"]})).collect::<Vec<_>>(),
         "conns_local": snap.iter().filter(|e| e["k"] == "conn" && e["node"] == 0).count(),
